@@ -1,4 +1,5 @@
 import GoBT.Driver.C01
+import GoBT.Driver.Sighash
 open GoBT GoBT.Driver
 
 def dispatch (op : String) (args : List String) (impl : String) : Answer :=
@@ -10,6 +11,9 @@ def dispatch (op : String) (args : List String) (impl : String) : Answer :=
   | "C01.exact" => c01Exact args impl
   | "C01.stream" => c01Stream args impl
   | "C01.txid" => c01Txid args impl
+  | "C02.pre" => c02Pre args impl
+  | "C03.pre" => c03Pre args impl
+  | "SH.vec" => shVec args impl
   | _ => ("unknown-op", "n/a")
 
 partial def loop (h : IO.FS.Stream) (out : IO.FS.Stream) : IO Unit := do
